@@ -4,6 +4,7 @@ import (
 	"fmt"
 	"math/rand"
 	"os"
+	"sync"
 	"go/constant"
 	"go/token"
 	"go/types"
@@ -56,6 +57,16 @@ type frame struct {
 	mergedReturn     bool
 }
 
+// fork profile (debugging aid, VERIF_FORK_PROFILE=1): forking branch sites
+var forkProfile map[string]int
+var forkMu sync.Mutex
+
+func noteFork(site string) {
+	forkMu.Lock()
+	forkProfile[site]++
+	forkMu.Unlock()
+}
+
 // Interp interprets one path of one harness.
 type Interp struct {
 	prog    *ssa.Program
@@ -71,6 +82,7 @@ type Interp struct {
 	depth     int
 
 	path   *Path
+	cur    *frame // frame of the instruction being executed
 	ex     *Explorer
 	solver *Solver
 
@@ -465,7 +477,22 @@ func (fr *frame) runDefers() {
 
 // ---------- instructions ----------
 
+func (in *Interp) curFn() string {
+	if in.cur == nil {
+		return "?"
+	}
+	s := in.cur.fn.String()
+	if c := in.cur.caller; c != nil {
+		s += " <- " + c.fn.String()
+		if c.caller != nil {
+			s += " <- " + c.caller.fn.String()
+		}
+	}
+	return s
+}
+
 func (in *Interp) visitInstr(fr *frame, instr ssa.Instruction) continuation {
+	in.cur = fr
 	switch instr := instr.(type) {
 	case *ssa.DebugRef:
 
@@ -562,8 +589,12 @@ func (in *Interp) visitInstr(fr *frame, instr ssa.Instruction) continuation {
 			if lim := in.param("unwind", 64); fr.symIter[instr] > lim {
 				panic(pathEnd{"unwind", fmt.Sprintf("symbolic branch in %s at %s taken more than %d times", fr.fn, in.prog.Fset.Position(instr.Pos()), lim)})
 			}
+			nd := in.ex.pushes
 			if in.branch(c) {
 				succ = 0
+			}
+			if forkProfile != nil && in.ex.pushes > nd {
+				noteFork(fmt.Sprintf("%s %s", fr.fn, in.prog.Fset.Position(instr.Cond.Pos())))
 			}
 		}
 		fr.prevBlock, fr.block = fr.block, fr.block.Succs[succ]
@@ -1735,7 +1766,13 @@ func (in *Interp) selectOp(fr *frame, instr *ssa.Select) Value {
 	} else if len(ready) == 1 {
 		chosen = ready[0]
 	} else {
-		chosen = ready[in.choice(len(ready), "select")]
+		if in.param("select_first", 0) == 1 {
+			// stated reduction: of several ready cases only the first is explored
+			chosen = ready[0]
+			in.stubsUsed["select: first ready case only (select_first=1)"] = true
+		} else {
+			chosen = ready[in.choice(len(ready), "select")]
+		}
 	}
 	recvOk := false
 	var recvVal Value
